@@ -284,6 +284,36 @@ func (s *c10Store) exec1(op c10M) (obs c10M) {
 		return c10M{"err": s.kv.DeletePrefix(c10unhex(op["p"])) != nil}
 	case "dump":
 		return c10M{"kvs": s.dump()}
+	case "fill":
+		// n keys p ++ 5-digit index in one bulk write (volume case for block-wise prefix deletes)
+		p := c10unhex(op["p"])
+		n := int(op["n"].(float64))
+		err := s.kv.BulkWrite(func(bl kvi.KVBulkWrite) error {
+			for i := 0; i < n; i++ {
+				k := append(append([]byte{}, p...), []byte(fmt.Sprintf("%05d", i))...)
+				if e := bl.Set(k, []byte{120}); e != nil {
+					return e
+				}
+			}
+			return nil
+		})
+		return c10M{"seterrs": 0, "err": err != nil}
+	case "count":
+		p := c10unhex(op["p"])
+		n := 0
+		var first, last interface{}
+		s.kv.View(func(it kvi.KVIterator) error {
+			for it.Seek(p); it.Valid() && bytes.HasPrefix(it.Key(), p); it.Next() {
+				k := c10hex(it.Key())
+				if n == 0 {
+					first = k
+				}
+				last = k
+				n++
+			}
+			return nil
+		})
+		return c10M{"n": n, "first": first, "last": last}
 	case "sync":
 		return c10M{"ok": true}
 	case "view":
@@ -570,6 +600,25 @@ func c10Generate(r *Run) {
 	st := &c10Store{}
 	defer st.close()
 	for _, d := range drivers {
+		// volume cases: more keys under one prefix than the drivers' internal delete block (10000)
+		sizes := []int{12000}
+		if r.Tier == "thorough" {
+			sizes = []int{9999, 10000, 10001, 25000}
+		}
+		for _, n := range sizes {
+			for _, op := range []c10M{{"op": "reset", "driver": d}, {"op": "set", "k": "61", "v": "01"}, {"op": "set", "k": "6163", "v": "02"},
+				{"op": "fill", "p": "6162", "n": n}, {"op": "count", "p": "6162"}, {"op": "count", "p": ""},
+				{"op": "delp", "p": "6162"}, {"op": "count", "p": "6162"}, {"op": "count", "p": ""}, {"op": "dump"},
+				{"op": "fill", "p": "62", "n": n}, {"op": "delp", "p": ""}, {"op": "count", "p": ""}} {
+				if op["op"] == "fill" || op["op"] == "count" {
+					op["n"] = op["n"]
+				}
+				o := st.exec(op)
+				r.Emit(op, o)
+				r.Count("volume:" + op["op"].(string))
+			}
+			r.NonTrivial(fmt.Sprintf("volume-%s-%d", d, n))
+		}
 		for c := 0; c < cases; c++ {
 			g := &c10Gen{r: r, shadow: map[string]string{}, alpha: []byte("abc")}
 			if c%5 == 4 {
